@@ -196,7 +196,8 @@ class Adapter(object):
     shape = st.get("info", {}).get("shape", "")
     sig["odd_l4"] = shape.endswith("_odd")
     sig["cfi"] = shape == "t_cfi"
-    sig["first_frag"] = shape in ("u_frag1", "t_frag1t")
+    sig["first_frag"] = shape in ("u_frag1", "t_frag1t", "u_frag1_ipopt")
+    sig["options"] = "opt" in shape            # the frame carries IPv4 header options and/or TCP options
     sig["ecn"] = shape.endswith("_ecn") and "set_nw_tos" in types
     if isinstance(obs, dict) and "EXC" in obs:
       sig["observed"] = "exception:" + obs["EXC"]
